@@ -80,17 +80,27 @@ Theorem C01_sender_directives_truthful : forall cksum resp_len req_len f m now o
   SE f m s -> SE f m (fst (sstep cksum resp_len req_len now o s)).
 Proof. exact SE_sstep. Qed.
 
+(* Sender half, the outcome it reports: a send transaction reports Retained / Complete only after
+   it was handed a Finished PDU saying so ([Delivered] stands for whatever such a PDU guarantees) *)
+Theorem C01_sender_reports_what_it_was_told : forall cksum resp_len req_len (f0 : bytes) (Delivered : Prop) now o s,
+  SF Delivered s ->
+  (forall fn, o = SPdu (PFinished fn) -> fin_fs fn = FRetained -> fin_dc fn = DComplete -> Delivered) ->
+  SF Delivered (fst (sstep cksum resp_len req_len now o s)).
+Proof. exact SF_sstep. Qed.
+
 (* Composition. In the two-machine system started for file f and metadata m, after ANY script of
    link and user behaviour (deliver any PDU in flight, duplicate, drop, cut a direction, user
    cancel/suspend/resume/report/prompt at either end, time advances, the loops left alone):
-   every PDU in flight towards the receiver is truthful, and whenever the receive transaction
-   claimed Retained / Complete during the last operation, the receiving filestore holds exactly f
-   under the destination name. *)
+   every PDU in flight towards the receiver is truthful; whenever the receive transaction claimed
+   Retained / Complete during the last operation - and whenever the SEND transaction reported
+   Retained / Complete to its user during the last operation - the receiving filestore holds
+   exactly f under the destination name. *)
 Theorem C01_system : forall f m, md_reqs m = [] ->
   forall now cfg np ops, md_size m = N.of_nat (length f) -> 0 < cfg_seg cfg ->
   let l := lrun ops (l_new now cfg np m f) in
   Forall (truthful_pl f m) (l_sr l) /\
-  forall o, In o (l_racc l) -> success_out o -> flat_lookup (r_fs (l_r l)) (md_dst m) = Some f.
+  (forall o, In o (l_racc l) -> success_out o -> flat_lookup (r_fs (l_r l)) (md_dst m) = Some f) /\
+  (forall o, In o (l_sacc l) -> s_success o -> flat_lookup (r_fs (l_r l)) (md_dst m) = Some f).
 Proof. exact system_delivered. Qed.
 
 (* non-vacuity: a 7-byte file received as three out-of-order, overlapping segments *)
@@ -111,6 +121,7 @@ Example C01_system_nonvacuous :
   let ops := [LS USend; LDrop true 0; LS USend; LS USend; LDrop true 1; LRun 400] in
   let l := lrun ops (l_new 0 cfg (Deferred 0) md f) in
   existsb (fun o => match o with OInd (IFinished _ FRetained DComplete _) => true | _ => false end) (l_racc l) = true /\
+  existsb (fun o => match o with OInd (IFinished _ FRetained DComplete _) => true | _ => false end) (l_sacc l) = true /\
   flat_lookup (r_fs (l_r l)) [100] = Some f.
 Proof. vm_compute. auto. Qed.
 
@@ -123,4 +134,5 @@ Print Assumptions C01_receiver_history.
 Print Assumptions C01_receiver_initial.
 Print Assumptions C01_receiver_step.
 Print Assumptions C01_sender_directives_truthful.
+Print Assumptions C01_sender_reports_what_it_was_told.
 Print Assumptions C01_system.
